@@ -190,7 +190,14 @@ def run(rep, tier, seed, pa):
         if res.n_samples != len(chance):
             bad.append(("n_samples", "n_samples property %r, %d chance alignments" % (res.n_samples, len(chance))))
         # (5) each chance alignment is a valid same-mode alignment of its own continuum with the matching disorder (checked below in batch)
-        for al in chance[: (4 if tier == "quick" else 10)]:
+        want_cls = "SoftAlignment" if mode == "soft" else "Alignment"
+        for k, al in enumerate(chance):
+            if type(al).__name__ != want_cls:
+                bad.append(("chance-alignment-kind", "chance alignment %d is a %s, the requested mode (%s) produces %s" % (k, type(al).__name__, mode, want_cls)))
+                break
+        lim = 3 if tier == "quick" else 6
+        picked = chance[:lim] + (chance[-lim:] if len(chance) > 2 * lim else chance[lim:])     # the head AND the tail (second batch)
+        for al in picked:
             c2 = al.continuum
             if c2 is None or not c2:
                 continue
